@@ -406,7 +406,11 @@ func placeInitial(t *rapid.T, o GenOpts, w *World) {
 			}
 			continue
 		}
-		for pi, pl := range placed {
+		for pi := 0; pi < len(wl.Pods); pi++ { // in index order: the draws below must not depend on map iteration order
+			pl, ok := placed[pi]
+			if !ok {
+				continue
+			}
 			p := &wl.Pods[pi]
 			p.State, p.Node, p.GPUGroups = "running", pl.node, pl.groups
 			if o.Terminating && chance(t, "terminating", 15) {
